@@ -1,6 +1,7 @@
 import Cirbo.Proofs.EvalCor
 import Cirbo.Proofs.LazyTerm
 import Cirbo.Model.Checkers
+import Cirbo.Proofs.LazyShape
 /-!
 # C15 — Evaluation under partial assignments is sound and monotone
 
@@ -19,7 +20,9 @@ regenerated from `operators.py` (`Cirbo.Gen.op*`).
 -- OBLIGATION: c15_total_lazy_outputs
 -- OBLIGATION: c15_lazy_returns
 -- OBLIGATION: c15_lazy_terminates
--- PARTIAL: evaluate_circuit: monotonicity/totality are proved for the requested outputs (and soundness for every gate); for non-output gates of the lazy evaluator "same set of evaluated gates under both assignments" is not proved.
+-- OBLIGATION: c15_mono_lazy_every_gate
+-- OBLIGATION: c15_total_lazy_evaluated_gates
+-- PARTIAL: every clause is proved on the model for both evaluators, for every gate (the demand-driven evaluator visits the same gates under both assignments: its stack only looks at which labels are defined, c15_mono_lazy_every_gate). What remains by correspondence only: the tie between the model's evaluators and the Python methods (compared on every run, incl. assignments with non-input keys, which the theorems exclude by hypothesis).
 -/
 namespace Cirbo
 open GateType V3
@@ -158,6 +161,50 @@ theorem c15_lazy_terminates {c : Circuit} (hnd : c.labels.Nodup)
     (asg : Asg) (outs : Option (List Label)) : evalLazy c asg outs ≠ .error "fuel" :=
   evalLazy_terminates hnd hrank asg outs
 
+/-- **Monotonicity, demand-driven evaluation, at every gate**: the evaluator visits the same gates
+under `asg` and under a more defined `asg'` (which gates are visited depends only on which labels
+are defined, never on the values), so the value reported for *any* gate under `asg` is below the one
+reported under `asg'` — an already defined result never changes. -/
+theorem c15_mono_lazy_every_gate {c : Circuit} (h : WFU c) (asg asg' : Asg) (outs : Option (List Label))
+    (hasg : ∀ g ∈ c.gates, g.ty ≠ INPUT → asg.get? g.label = none)
+    (hasg' : ∀ g ∈ c.gates, g.ty ≠ INPUT → asg'.get? g.label = none)
+    (houts : ∀ o ∈ outs.getD c.outputs, o ∈ c.labels) (hle : AsgLe asg asg')
+    {d d' : Asg} (hd : evalLazy c asg outs = .ok d) (hd' : evalLazy c asg' outs = .ok d') :
+    ∀ g ∈ c.gates, valOf d g.label ≤ valOf d' g.label := by
+  obtain ⟨e, _, hv, _⟩ := evalFull_spec h asg
+  obtain ⟨e', _, hv', _⟩ := evalFull_spec h asg'
+  exact (evalLazy_mono_all h.toWF asg asg' outs hasg hasg' houts hv hv' hle hd hd').1
+
+/-- **Totality, demand-driven evaluation, at every evaluated gate**: the returned dictionary is the
+dictionary `d1` of the gates the evaluator visited, completed with `Undefined` for the others; under
+a total assignment no visited gate is Undefined. -/
+theorem c15_total_lazy_evaluated_gates {c : Circuit} (h : WFU c) (b : Label → Bool)
+    (outs : Option (List Label)) (houts : ∀ o ∈ outs.getD c.outputs, o ∈ c.labels)
+    {d : Asg} (hd : evalLazy c (asgOfBools c b) outs = .ok d) :
+    ∃ d1 : Asg, (∀ l, d.get? l = if l ∈ c.labels then some ((d1.get? l).getD V3.U) else d1.get? l) ∧
+      ∀ g ∈ c.gates, ∀ x, d1.get? g.label = some x → x ≠ U := by
+  obtain ⟨e, _, hv, _⟩ := evalFull_spec h (asgOfBools c b)
+  have hasg : ∀ g ∈ c.gates, g.ty ≠ INPUT → (asgOfBools c b).get? g.label = none := by
+    intro g hg hty
+    unfold asgOfBools; rw [get?_map_pair]
+    have : g.label ∉ c.inputs := by
+      intro hin
+      obtain ⟨g', hg', hgl', hty'⟩ := (h.inputsOK g.label).mp hin
+      have : g' = g := gate_unique h.nodup hg' hg hgl'
+      subst this; exact hty hty'
+    simp [this]
+  obtain ⟨d1, _, hget, hev⟩ := evalLazy_raw h.toWF _ outs hasg houts hv hd
+  have hv' : IsVal3 c (fun l => ofBool (b l)) (valOf e) := by
+    apply isVal3_congr _ hv
+    intro g hg hty
+    rw [asgFun_asgOfBools]
+    have : g.label ∈ c.inputs := (h.inputsOK g.label).mpr ⟨g, hg, rfl, hty⟩
+    simp [this]
+  refine ⟨d1, hget, ?_⟩
+  intro g hg x hx
+  rw [hev g hg x hx]
+  exact val3_total_defined h.toWF hv' g hg
+
 /-! Non-vacuity: the hypotheses are satisfiable (a concrete `WFU` circuit), and the evaluators
 return on a circuit with sharing, a repeated operand and a 3-ary gate. -/
 def exTiny : Circuit :=
@@ -210,5 +257,8 @@ example : (evalLazy exC [("b", T)] none).toOption = some [("b", T), ("a", U), ("
 #print axioms c15_total_lazy_outputs
 #print axioms c15_lazy_returns
 #print axioms c15_lazy_terminates
+
+#print axioms c15_mono_lazy_every_gate
+#print axioms c15_total_lazy_evaluated_gates
 
 end Cirbo
